@@ -14,6 +14,9 @@ import (
 	"github.com/ipfs/go-cid"
 	ipldprime "github.com/ipld/go-ipld-prime"
 	"github.com/ipld/go-ipld-prime/codec/dagcbor"
+	"github.com/ipld/go-ipld-prime/datamodel"
+	"github.com/ipld/go-ipld-prime/node/bindnode"
+	ipldschema "github.com/ipld/go-ipld-prime/schema"
 	cidlink "github.com/ipld/go-ipld-prime/linking/cid"
 	mh "github.com/multiformats/go-multihash"
 	ucar "github.com/storacha/go-ucanto/core/car"
@@ -25,6 +28,7 @@ import (
 	"github.com/storacha/go-ucanto/core/ipld/block"
 	"github.com/storacha/go-ucanto/core/message"
 	"github.com/storacha/go-ucanto/core/receipt"
+	"github.com/storacha/go-ucanto/core/receipt/fx"
 	"github.com/storacha/go-ucanto/core/result"
 	"github.com/storacha/go-ucanto/core/result/ok"
 	"github.com/storacha/go-ucanto/transport"
@@ -133,8 +137,19 @@ func randTree(r *rand.Rand, cast *Cast, depth int, pool *[]*dnode, far int, nonc
 	if r.Intn(4) == 0 {
 		opts = append(opts, delegation.WithNotBefore(1+r.Intn(50)))
 	}
+	var nb ucan.CaveatBuilder = Cav{Max: i64(int64(*nonce))}
+	if r.Intn(3) == 0 {
+		// caveats handed over as a TYPED node whose type-level view differs from what is written (a renamed field, an
+		// absent optional one): the issued delegation and its read-back copies must still show the same fields
+		t := &c13TypedCav{Size: int64(*nonce)}
+		if r.Intn(2) == 0 {
+			s := fmt.Sprint("note", *nonce)
+			t.Note = &s
+		}
+		nb = c13TypedNb{t}
+	}
 	d, err := delegation.Delegate(iss.Signer, aud.DID, []ucan.Capability[ucan.CaveatBuilder]{
-		ucan.NewCapability[ucan.CaveatBuilder](pick(r, abilities), iss.DID.String(), Cav{Max: i64(int64(*nonce))})}, opts...)
+		ucan.NewCapability[ucan.CaveatBuilder](pick(r, abilities), iss.DID.String(), nb)}, opts...)
 	if err != nil {
 		panic(err)
 	}
@@ -149,10 +164,67 @@ func randTree(r *rand.Rand, cast *Cast, depth int, pool *[]*dnode, far int, nonc
 	return n
 }
 
+type c13TypedCav struct {
+	Size int64
+	Note *string
+}
+
+var c13TypedCavType = func() ipldschema.Type {
+	ts, err := ipldprime.LoadSchemaBytes([]byte("type TypedCav struct {\n  size Int (rename \"sz\")\n  note optional String\n}\n"))
+	if err != nil {
+		panic(err)
+	}
+	return ts.TypeByName("TypedCav")
+}()
+
+type c13TypedNb struct{ v *c13TypedCav }
+
+func (c c13TypedNb) ToIPLD() (datamodel.Node, error) { return bindnode.Wrap(c.v, c13TypedCavType), nil }
+
+// sameFields: what the accessors of the two views report (capabilities with their caveats, window, nonce, facts, version)
+func sameFields(a, b delegation.Delegation) string {
+	ca, cb := a.Capabilities(), b.Capabilities()
+	if len(ca) != len(cb) {
+		return "number of capabilities differs"
+	}
+	for i := range ca {
+		if ca[i].Can() != cb[i].Can() || ca[i].With() != cb[i].With() {
+			return "capability differs"
+		}
+		// as DATA (entries, keys, values) — not through a codec, which would look at a typed node's representation
+		na, nb := nbNode(ca[i].Nb()), nbNode(cb[i].Nb())
+		if (na == nil) != (nb == nil) || (na != nil && !datamodel.DeepEqual(na, nb)) {
+			return "caveats of a capability differ"
+		}
+	}
+	ea, eb := a.Expiration(), b.Expiration()
+	if (ea == nil) != (eb == nil) || (ea != nil && *ea != *eb) {
+		return "expiration differs"
+	}
+	if a.NotBefore() != b.NotBefore() || a.Nonce() != b.Nonce() || a.Version() != b.Version() {
+		return "not-before / nonce / version differs"
+	}
+	if len(a.Facts()) != len(b.Facts()) {
+		return "facts differ"
+	}
+	if len(a.Proofs()) != len(b.Proofs()) {
+		return "number of proofs differs"
+	}
+	for i := range a.Proofs() {
+		if a.Proofs()[i].String() != b.Proofs()[i].String() {
+			return "proof links differ"
+		}
+	}
+	return ""
+}
+
 // sameDelegation: link, root bytes (hence every field and the signature) equal; embedded proofs transitively
 func sameDelegation(orig *dnode, got delegation.Delegation, depth int) string {
 	if got == nil {
 		return "missing"
+	}
+	if r := sameFields(orig.d, got); r != "" {
+		return r
 	}
 	if got.Link().String() != orig.d.Link().String() {
 		return "link differs"
@@ -423,6 +495,11 @@ func init() {
 				node      *dnode // the invocation embedded as `ran`, when it is
 			}
 			var rinfos []rinfo
+			type fxInfo struct {
+				root  string
+				nodes []*dnode // the invocations embedded as effects (forks in order, then the join)
+			}
+			var fxNodes []fxInfo
 			for k := 0; k < nrc; k++ {
 				var rn ran.Ran
 				var ranLink ipld.Link
@@ -441,11 +518,52 @@ func init() {
 					ranLink = fakeLink(88000 + nonce + k)
 					rn = ran.FromLink(ranLink)
 				}
-				rc, err := receipt.Issue(service.Signer, result.Ok[ok.Unit, ipld.Builder](ok.Unit{}), rn)
+				// effects: forks and a join, as bare links or as embedded invocations (each with its own proofs and an attachment),
+				// in every order — an embedded one travels with the receipt whatever precedes it
+				var ropts []receipt.Option
+				var fxn []*dnode
+				if r.Intn(2) == 0 {
+					mkFx := func() fx.Effect {
+						if r.Intn(2) == 0 {
+							return fx.FromLink(fakeLink(99000 + nonce*7 + r.Intn(7)))
+						}
+						n := &dnode{}
+						c := randTree(r, cast, r.Intn(3), &pool, far, &nonce)
+						n.inline = append(n.inline, c)
+						nonce++
+						iss := cast.Ed(fmt.Sprintf("k%d", r.Intn(4)))
+						fi, err := invocation.Invoke(iss.Signer, service.DID, ucan.NewCapability[ucan.CaveatBuilder]("store/next", iss.DID.String(), Cav{Max: i64(int64(nonce))}),
+							delegation.WithProof(delegation.FromDelegation(c.d)), delegation.WithExpiration(far), delegation.WithNonce(fmt.Sprint(nonce)))
+						if err != nil {
+							panic(err)
+						}
+						if r.Intn(2) == 0 {
+							b := randBlock(r)
+							if fi.Attach(b) == nil {
+								n.attached = append(n.attached, b)
+							}
+						}
+						n.d = fi
+						fxn = append(fxn, n)
+						return fx.FromInvocation(fi)
+					}
+					var forks []fx.Effect
+					for nf := r.Intn(4); nf > 0; nf-- {
+						forks = append(forks, mkFx())
+					}
+					if len(forks) > 0 {
+						ropts = append(ropts, receipt.WithFork(forks...))
+					}
+					if r.Intn(3) == 0 {
+						ropts = append(ropts, receipt.WithJoin(mkFx()))
+					}
+				}
+				rc, err := receipt.Issue(service.Signer, result.Ok[ok.Unit, ipld.Builder](ok.Unit{}), rn, ropts...)
 				if err != nil {
 					return err
 				}
 				rcpts = append(rcpts, rc)
+				fxNodes = append(fxNodes, fxInfo{rc.Root().Link().String(), fxn})
 				var bl []string
 				for b, err := range rc.Blocks() {
 					if err == nil {
@@ -539,6 +657,40 @@ func init() {
 					}
 					if why := sameDelegation(ri.node, rcv.Ran(), 0); why != "" {
 						direct = append(direct, map[string]any{"message": i, "codec": codec, "what": "receipt's embedded invocation differs after transport: " + why})
+					}
+				}
+				for _, fi := range fxNodes {
+					if len(fi.nodes) == 0 {
+						continue
+					}
+					rl, _ := cid.Decode(fi.root)
+					rcv, err := receipt.NewReceipt[ipld.Node, ipld.Node](cidlink.Link{Cid: rl}, br, rdm.TypeSystem().TypeByName("Receipt"))
+					if err != nil {
+						direct = append(direct, map[string]any{"message": i, "codec": codec, "what": "receipt with effects not readable after transport: " + err.Error()})
+						continue
+					}
+					effs := append([]fx.Effect{}, rcv.Fx().Fork()...)
+					if j := rcv.Fx().Join(); j != (fx.Effect{}) {
+						effs = append(effs, j)
+					}
+					byLink := map[string]fx.Effect{}
+					for _, e := range effs {
+						byLink[e.Link().String()] = e
+					}
+					for _, n := range fi.nodes {
+						e, ok := byLink[n.d.Link().String()]
+						if !ok {
+							direct = append(direct, map[string]any{"message": i, "codec": codec, "what": "receipt's effect link lost after transport"})
+							continue
+						}
+						ei, ok := e.Invocation()
+						if !ok {
+							direct = append(direct, map[string]any{"message": i, "codec": codec, "what": "invocation embedded as an effect of a receipt lost after transport"})
+							continue
+						}
+						if why := sameDelegation(n, ei, 0); why != "" {
+							direct = append(direct, map[string]any{"message": i, "codec": codec, "what": "invocation embedded as an effect differs after transport: " + why})
+						}
 					}
 				}
 				for k, n := range invNodes {
